@@ -70,6 +70,7 @@ PINS = {
     "method.CODE": "24f17db8acd96d0c",
     "method.ANNOTATION_DEFAULT": "cc337697399e65eb",
     "pool.element_value_accessors": "d919c6d6d644b54c",
+    "pool.resolution": "43346b29738acad0",
     "tree.rs": "0dbc836955dbd480",
     "lib.rs ClassRead": "1de6f31dedd3013a",
 }
@@ -331,6 +332,20 @@ def pinned_texts(cr, cls_body, arms):
     i = pool.index("pub(crate) fn get_integer(")
     j = pool.index("pub(crate) fn get_loadable(")
     t["pool.element_value_accessors"] = re.sub(r"///.*", "", pool[i:j])
+    # the lazy resolution functions (coq/C01/Pool.v is written by hand from them): impl PoolEntry (as_*), the PoolRead
+    # struct (no state beside the entries: resolution is a function of pool, bootstrap table and index), get / get_* and
+    # the loadable / invokedynamic entry points
+    i = pool.index("impl PoolEntry {")
+    entry_impl = pool[i:matching(pool, i + len("impl PoolEntry ")) + 1]
+    m = re.search(r"pub\(crate\)\s+struct\s+PoolRead\s*\{", pool)
+    if not m:
+        raise Bad("pool.rs: struct PoolRead not found")
+    struct = pool[m.start():matching(pool, m.end() - 1) + 1]
+    a0 = pool.index("fn get(&self")
+    a1 = pool.index("pub(crate) fn get_integer(")
+    b0 = pool.index("pub(crate) fn get_loadable(")
+    b1 = pool.index("trait PoolContext")
+    t["pool.resolution"] = re.sub(r"///.*", "", entry_impl + struct + pool[a0:a1] + pool[b0:b1])
     # what the tree visitor does with what it is handed (ClassFile.policy_of / apply_attr)
     t["tree.rs"] = strip_comments(open(os.path.join(vcheck.REPO, "duke/src/visitor/implementations/tree.rs")).read())
     # ClassRead: read_vec, skip (a seek), read_u8_vec, with_pos
